@@ -68,6 +68,37 @@ Theorem C17_established_can_encode : forall c asn fb nh a,
   enc_update (my_asn c) (ibgp_of c) fb nh a <> None.
 Proof. exact established_can_encode. Qed.
 
+(* the 4-octet-AS flag follows the CONNECTION: an accepted handshake sets it to
+   what this OPEN announced, and in every reachable state with the connection
+   up the width a flush encodes with is the width the peer parses with *)
+Theorem C17_handshake_sets_capability : forall c w id asn fb w',
+  step c w (EHandshake id asn fb true) = Some w' ->
+  fbasn (ws w') = fb /\ pcap (wp w') = fb /\ conn (ws w') = Some id /\ up (wp w') = Some id.
+Proof. exact handshake_sets_capability. Qed.
+
+Theorem C17_flush_uses_connection_capability : forall c es w id,
+  run c world0 es = Some w -> conn (ws w) = Some id -> up (wp w) = Some id ->
+  emit_width w = pcap (wp w).
+Proof. exact flush_uses_connection_capability. Qed.
+
+(* with Wire: every UPDATE written on an established connection, after any
+   history of reconnections to peers with different capabilities, decodes -- with
+   the AS width the peer announced on THIS connection -- to the intended route *)
+Theorem C17_established_update_decodes : forall c es w id nh a bs,
+  run c world0 es = Some w -> conn (ws w) = Some id -> up (wp w) = Some id ->
+  wf_uparams (my_asn c) nh a ->
+  enc_update (my_asn c) (ibgp_of c) (emit_width w) nh a = Some bs ->
+  dec_msg (pcap (wp w)) bs = Some (intended_update (my_asn c) (ibgp_of c) nh a).
+Proof. exact established_update_decodes. Qed.
+
+(* a stale flag would be misread in both directions *)
+Theorem C17_wrong_width_misread :
+  exists asn nh a bs, wf_uparams asn nh a /\ enc_update asn false true nh a = Some bs /\
+    dec_msg false bs <> Some (intended_update asn false nh a) /\
+  exists bs', enc_update asn false false nh a = Some bs' /\
+    dec_msg true bs' <> Some (intended_update asn false nh a).
+Proof. exact wrong_width_misread. Qed.
+
 (* regression of the model before fix: 588bbc0 (guard MyASN > 65536) *)
 Theorem C17_established_can_encode_refuted_prefix :
   exists c asn fb nh a, hs_accept_prefix c asn fb = true /\ wf_uparams (my_asn c) nh a /\
@@ -86,4 +117,15 @@ Example C17_nonvacuous :
   | Some w => map (ptable (wp w)) [0; 1; 2] = [Some 2; None; Some 3] /\ conn (ws w) = Some 2 /\ pending (ws w) = None
   | None => False
   end.
+Proof. vm_compute. repeat split. Qed.
+
+(* capability on -> off -> on across reconnections *)
+Example C17_nonvacuous_capability_flip :
+  let c := {| my_asn := 64512; peer_asn := 64999; universe := [0] |} in
+  match run c world0 [EHandshake 1 64999 true true; EPeerDrop; EReaderDrop 1; EHandshake 2 64999 false true] with
+  | Some w => emit_width w = false /\ pcap (wp w) = false
+  | None => False end /\
+  match run c world0 [EHandshake 1 64999 false true; EReaderDrop 1; EHandshake 2 64999 true true] with
+  | Some w => emit_width w = true /\ pcap (wp w) = true
+  | None => False end.
 Proof. vm_compute. repeat split. Qed.
